@@ -60,6 +60,13 @@ def run(tier):
     wd = common.workdir("c04")
     r = common.tlc("DeltaImpl", "MC_DeltaImpl.cfg" if tier != "thorough" else common.cfg_variant("MC_DeltaImpl.cfg", wd, NC=5, Local="{2, 4}", MaxCrash=3), workers=8, timeout=1800, heap="8g")
     ck.require_ok("DeltaImpl", r); ck.add_tlc("DeltaImpl/MC_DeltaImpl.cfg (DoneMeansB, Exactness, PartialNeverValid, Converges)", r, "4 chunks, every initial disk in {full,part,zero,junk}^4 x 3 header states, chunks 2,3 local, limit 2, up to 2 crashes")
+    # zckdl's request loop: the 255/127/7/2/1 fallback ladder against servers accepting any number of ranges per request
+    r = common.tlc("ZckDlLadder", "MC_ZckDlLadder.cfg", workers=4, timeout=600)
+    ck.require_ok("ZckDlLadder", r); ck.add_tlc("ZckDlLadder (IndexInTable, MaxFromLadder, ShrinksAfterRefusal, BoundedRequests, Terminates)", r, "1..300 separate missing extents x server limits {1,2,3,6,7,8,126,127,128,254,255,256,1000}")
+    r = common.tlc("ZckDlLadder", "MC_ZckDlLadder_nostep.cfg", workers=4, timeout=600)
+    if r.ok:
+        raise Broken("ZckDlLadder/nostep: the documented livelock was not found")
+    ck.add_tlc("ZckDlLadder, variant without the step down (unbounded requests exhibited, as documented)", r)
     scs = []
     n = 260 if tier == "quick" else 1500
     for i in range(n):
